@@ -265,11 +265,30 @@ def kani_env():
     return env
 
 
+def reap_orphans():
+    """Kani's per-harness timeout kills cbmc but not the external SMT solver it spawned; such a solver
+    is re-parented to init and spins forever. Kill cvc5/z3/kissat processes whose parent is init."""
+    try:
+        for pid in os.listdir("/proc"):
+            if not pid.isdigit():
+                continue
+            try:
+                stat = open("/proc/%s/stat" % pid).read()
+                comm = stat[stat.index("(") + 1:stat.rindex(")")]
+                ppid = int(stat[stat.rindex(")") + 2:].split()[1])
+                if comm in ("cvc5", "z3", "kissat", "cadical") and ppid == 1:
+                    os.kill(int(pid), 9)
+            except Exception:
+                continue
+    except Exception:
+        pass
+
+
 def run_kani(scratch_repo, pkg, harnesses, timeout_s=300, jobs=8, tests=False, extra=None, wall_timeout=None, playback=False):
     """Run cargo kani for the given fully-qualified harness names. Returns dict name -> result."""
     os.makedirs(CACHE, exist_ok=True)
-    out_json = os.path.join(os.path.dirname(scratch_repo), "kani-%s-%d.json" % (pkg, int(time.time() * 1000) % 10 ** 9))
-    cmd = ["cargo", "kani", "-p", pkg, "--target-dir", KANI_TARGET,
+    out_json = os.path.join(os.path.dirname(scratch_repo), "kani-%s-%d.json" % (pkg or "extract", int(time.time() * 1000) % 10 ** 9))
+    cmd = ["cargo", "kani"] + (["-p", pkg] if pkg else []) + ["--target-dir", KANI_TARGET if pkg else KANI_TARGET + "-bevy",
            "-Z", "function-contracts", "-Z", "stubbing", "-Z", "unstable-options",
            "--output-format", "terse", "--export-json", out_json,
            "--harness-timeout", "%ds" % timeout_s, "--exact"]
@@ -283,6 +302,7 @@ def run_kani(scratch_repo, pkg, harnesses, timeout_s=300, jobs=8, tests=False, e
         cmd += extra
     for h in harnesses:
         cmd += ["--harness", h]
+    reap_orphans()
     t0 = time.time()
     wall = wall_timeout or (timeout_s * max(1, (len(harnesses) + max(jobs, 1) - 1) // max(jobs, 1)) + 900)
     try:
@@ -295,6 +315,7 @@ def run_kani(scratch_repo, pkg, harnesses, timeout_s=300, jobs=8, tests=False, e
         out = (e.stdout or "") if isinstance(e.stdout, str) else (e.stdout or b"").decode(errors="replace")
         raise Undecided("cargo kani wall-clock timeout after %ds\n%s" % (wall, out[-2000:]))
     dt = time.time() - t0
+    reap_orphans()
     results = {}
     data = None
     if os.path.exists(out_json):
@@ -367,9 +388,9 @@ def native_replay(scratch_repo, pkg, harness_file_rel, test_text, tests=False, r
         s += "\n" + test_text + "\n"
         open(p, "w").write(s)
     env = kani_env()
-    env["CARGO_TARGET_DIR"] = PLAYBACK_TARGET
+    env["CARGO_TARGET_DIR"] = PLAYBACK_TARGET if pkg else PLAYBACK_TARGET + "-bevy"
     env["RUST_BACKTRACE"] = "0"
-    cmd = ["cargo", "kani", "playback", "-Z", "concrete-playback", "-p", pkg]
+    cmd = ["cargo", "kani", "playback", "-Z", "concrete-playback"] + (["-p", pkg] if pkg else [])
     if tests:
         cmd += ["--tests"]
     cmd += ["--", name, "--exact"] if False else ["--", name]
